@@ -124,6 +124,29 @@ def check(rep, tier, seed):
         elif parts[2] != want_dec:
             bad.append((l, a, "graph inside an evolved record: shape or sharing lost"))
     rep.coverage["embedded_in_evolved_record"] = len(elines)
+    # ... and with de-duplicated strings in the same stream (a name-carrying header entry, a string before the graph and
+    # its repeat after it): object numbers and string ids are separate numberings - record = 02 size(c0) size(c1)
+    # [-2 "gone"] c0 c1 with c0 = "t" ++ G ++ back-reference to string 2, c1 = back-reference to object 1
+    slines = ["gs" + l[1:] for l in lines[:: (5 if tier == "quick" else 1)]]
+    sgraphs = graphs[:: (5 if tier == "quick" else 1)]
+    simpl_s = C.run_sharded(harness, "graph", slines, wd, "embedded.strings")
+    for (nodes, root), l, a in zip(sgraphs, slines, simpl_s):
+        parts = a.split(" ; ")
+        if len(parts) != 3 or not parts[0].startswith("ok "):
+            bad.append((l, a, "graph and de-duplicated strings in one evolved record: encoding failed"))
+            continue
+        g_hex, b2_hex = parts[1].split(" ")
+        c0 = bytes.fromhex("0274") + bytes.fromhex(g_hex) + vi(-2)
+        c1 = bytes.fromhex(b2_hex)
+        want_bytes = (b"\x02" + vi(len(c0)) + vi(len(c1)) + vi(-2) + vi(4) + b"gone" + c0 + c1).hex()
+        nsfx = {"-": 0, "00": 1, "0102": 2}[l.rsplit(" ", 1)[1]]
+        want_dec = f"ok 74 74 0 0 | {show(reachable_canon(nodes, root))} | {nsfx}"
+        if parts[0] != "ok " + want_bytes:
+            bad.append((l, a, "graph and de-duplicated strings in one record: object numbers / string ids are not the two separate "
+                              "first-encounter numberings the format prescribes"))
+        elif parts[2] != want_dec:
+            bad.append((l, a, "graph and de-duplicated strings in one record: shape, sharing or a string lost"))
+    rep.coverage["embedded_with_dedup_strings"] = len(slines)
     # the 16384 boundary, implementation only (the model's tables are lists): a star of 16500 leaves, late leaves
     # pointing back across the boundary; judged against the independent reachability computation
     W = 16500
